@@ -37,7 +37,7 @@ ASSUMPTIONS = ["frozen positions are 0-based (the convention full_shuffle implem
                "non-termination (N<5, single charge type) is counted as BUDGET",
                "bookkeeping is observed through the API: length, counts, per-residue charge via get_linear_NCPR(1), SCD, carried delta-max via get_deltaMax()",
                "swapRes indices are valid 0-based positions"]
-PROBES = ["default_frozen_argument", "frozen_as_tuple", "frozen_as_frozenset", "frozen_as_range", "frozen_nonempty", "frozen_all", "frozen_out_of_range", "frozen_as_list", "cache_warm_before_move", "child_inherits_dmax",
+PROBES = ["frozen_as_shared_set", "earlier_api_result_still_held", "default_frozen_argument", "frozen_as_tuple", "frozen_as_frozenset", "frozen_as_range", "frozen_nonempty", "frozen_all", "frozen_out_of_range", "frozen_as_list", "cache_warm_before_move", "child_inherits_dmax",
           "same_seed_twice", "clock_went_back", "returns_self", "block_swap_attempt_99", "block_swap_N_lt_4", "cluster_draw_cap",
           "cluster_named_refusal", "chain_depth_ge_5", "panel_on_child", "permutant_api", "shuffle_api", "swapres_same_index",
           "three_types_sample", "moved_something"]
@@ -108,6 +108,8 @@ def gen_frozen(rnd, allow_list):
         ft = rnd.choice(("list", "list", "tuple", "frozenset", "range"))
     elif r < 0.6:
         ft = "frozenset"
+    elif r < 0.75:
+        ft = "shared_set"
     else:
         ft = "set"
     return {"fz": spec, "fp": rnd.choice((0.1, 0.3, 0.6)), "fs": rnd.randrange(1 << 30), "ft": ft}
@@ -143,8 +145,16 @@ def resolve_frozen(op, seq):
     return f
 
 
+CALLER_SET = set()
+
+
 def container(frozen, ft):
     """the frozen positions in the container type the plan asks for (all plain Python containers)"""
+    if ft == "shared_set":
+        # the caller keeps one set object and edits it in place between calls
+        CALLER_SET.clear()
+        CALLER_SET.update(frozen)
+        return CALLER_SET
     if ft == "list":
         return list(frozen)
     if ft == "tuple":
@@ -180,6 +190,13 @@ def corpus():
         {"k": "shuffle_api", "o": 0, "fz": "all", "ft": "set", "panel": False}, {"k": "shuffle_api", "o": 0, "fz": "default", "panel": False},
         {"k": "move", "o": 0, "m": "swapRandChargeRes", "fz": "charged", "ft": "set", "panel": False}, {"k": "move", "o": 0, "m": "swapRandChargeRes", "fz": "default", "panel": False},
         {"k": "move", "o": 0, "m": "permute_block_swap", "fz": "default", "panel": False}, {"k": "move", "o": 0, "m": "permute_cluster_charges", "fz": "default", "panel": False}])
+    mk("one_frozen_set_object_grown_between_calls", ["MKEGSTYKEDDRRGSPKE"],
+       [{"k": "move", "o": 0, "m": "swapRandChargeRes", "fz": "explicit", "fl": fl, "ft": "shared_set", "panel": False}
+        for fl in ([0], [0, 1, 2], [0, 1, 2, 7, 8], [0, 1, 2, 7, 8, 9, 10, 11], [0, 1, 2, 7, 8, 9, 10, 11, 12, 16, 17], [1], [1, 2, 7, 8, 9, 10, 11, 12, 16])] +
+       [{"k": "move", "o": 0, "m": "full_shuffle", "fz": "explicit", "fl": fl, "ft": "shared_set", "panel": False} for fl in ([0], [0, 5, 9], [3])])
+    mk("results_of_several_api_calls_stay_apart", ["MKEGSTYKEDDRRGSP", "GGSTKE"],
+       [{"k": "permutant", "o": 0}, {"k": "permutant", "o": 1}, {"k": "shuffle_api", "o": 0, "fz": "none", "ft": "set", "panel": False},
+        {"k": "permutant", "o": 0}, {"k": "shuffle_api", "o": 1, "fz": "half", "ft": "set", "panel": False}, {"k": "permutant", "o": 1}])
     mk("frozen_charge_swap", ["MKEGSTYKEDDRRGSP"], [{"k": "move", "o": -1, "m": "swapRandChargeRes", "fz": z, "fp": 0.4, "fs": 9, "ft": "set", "panel": False}
                                                      for z in ("random", "pos", "neg", "neut", "all", "charged", "half")])
     mk("warm_cache_chain", ["GKEGKEGKEGKEGSTY"], [{"k": "warm", "o": 0, "how": "kappa"}] +
@@ -336,7 +353,17 @@ def execute(plan, ctx):
         if depth[-1] >= 5:
             ctx.probe("chain_depth_ge_5")
 
+    api_results = []      # (what, returned SequenceParameters object, the sequence it had when it was returned)
+
     def sweep(why):
+        for what, spobj, s_then in api_results:
+            if spobj.get_sequence() != s_then:
+                raise Violation("parent_altered", "result_altered_later:" + what,
+                                "an object returned earlier by %s held %r and now holds %r (%s): results of separate calls are not independent objects" % (
+                                    what, s_then, spobj.get_sequence(), why))
+        _sweep_live(why)
+
+    def _sweep_live(why):
         """every live object still equals a fresh object built from the string it had when it was created
         (catches state shared between parent and child that a later move disturbs)"""
         for j, o in enumerate(live):
@@ -419,9 +446,11 @@ def execute(plan, ctx):
                 ctx.probe("shuffle_api")
                 if op.get("fz") == "default":
                     ctx.probe("default_frozen_argument")
-                    child = wrap(parent).get_shuffled_sequence().SeqObj
+                    res = wrap(parent).get_shuffled_sequence()
                 else:
-                    child = wrap(parent).get_shuffled_sequence(fz).SeqObj
+                    res = wrap(parent).get_shuffled_sequence(fz)
+                child = res.SeqObj
+                api_results.append(("get_shuffled_sequence", res, res.get_sequence()))
             elif k == "permutant":
                 where = "SequencePermutants.get_permutant()"
                 key_site = "get_permutant"
@@ -430,6 +459,9 @@ def execute(plan, ctx):
                 P = SequencePermutants(pseq)
                 got = P.get_permutant()
                 child = got.SeqObj
+                api_results.append(("get_permutant", got, got.get_sequence()))
+                if len(api_results) > 1:
+                    ctx.probe("earlier_api_result_still_held")
                 if P.SeqObj.seq != pseq:
                     raise Violation("parent_altered", "parent_altered:get_permutant", "get_permutant altered its own sequence")
         except DrawCap:
@@ -464,7 +496,7 @@ def execute(plan, ctx):
                 ctx.probe("frozen_out_of_range")
             if op.get("ft") == "list":
                 ctx.probe("frozen_as_list")
-            if op.get("ft") in ("tuple", "frozenset", "range"):
+            if op.get("ft") in ("tuple", "frozenset", "range", "shared_set"):
                 ctx.probe("frozen_as_" + op.get("ft"))
         if warm:
             ctx.probe("cache_warm_before_move")
